@@ -589,7 +589,8 @@ package martian
 //@ func (*Proxy).init
 //@ trusted
 //@ modifies *
-//@ ensures p.conns != nil
+//@ preserves maps(map[net.Conn]struct{})
+//@ ensures p.conns != nil && (old(p.conns) != nil ==> p.conns == old(p.conns))
 //@ pure martian.Shutdown$2 (*martian.Proxy).Shutdown$2
 //@ func (*Proxy).Shutdown
 //@ property C11
@@ -615,3 +616,17 @@ package martian
 //@ ensures connUse() == old(connUse())
 //@ loop 0:
 //@   invariant connUse() == old(connUse()) && p != nil && l != nil && p.conns != nil
+
+// Close (C11): every connection in the registry is closed - whether or not a
+// Shutdown has been attempted before (the closing flag is raised once, the
+// sockets are closed on every call).
+//@ pure multierr.Append
+//@ func (*Proxy).Close
+//@ property C11
+//@ requires p != nil && p.conns != nil && forall c net.Conn :: (c in p.conns) ==> c != nil
+//@ modifies **
+//@ ensures forall c net.Conn {nConnClose(c)} :: old(now(c) in p.conns) ==> nConnClose(c) >= old(nConnClose(c)) + 1
+//@ loop 0:
+//@   invariant p != nil && p.conns == old(p.conns) && forall c net.Conn :: (c in p.conns) == old(now(c) in p.conns)
+//@   invariant forall c net.Conn :: (c in p.conns) ==> c != nil
+//@   invariant forall c net.Conn {nConnClose(c)} :: nConnClose(c) >= old(nConnClose(c)) && (visited(c) ==> nConnClose(c) >= old(nConnClose(c)) + 1)
